@@ -204,3 +204,116 @@ Section Submatrix.
       destruct (Nat.ltb_spec (j mod 64) 64); [|lia]. cbn [andb]. rewrite get_abs_rowval by lia. do 2 f_equal. lia.
   Qed.
 End Submatrix.
+
+Lemma X_bits hM mem sr sc i j :
+  N.testbit (N.shiftr (rowval hM mem (sr + i)) (N.of_nat sc)) (N.of_nat j) =
+  N.testbit (rowval hM mem (sr + i)) (N.of_nat (j + sc)).
+Proof. apply testbit_shiftr_nat. Qed.
+
+Lemma abs_msub_intro hS hM sr sc r c m' mem : hdr_ok hS -> hdr_ok hM ->
+  h_nrows hS = r -> h_ncols hS = c -> sr + r <= h_nrows hM ->
+  (forall i j, i < r -> j < c ->
+     N.testbit (rowval hS m' i) (N.of_nat j) = N.testbit (rowval hM mem (sr + i)) (N.of_nat (j + sc))) ->
+  abs hS m' = msub (abs hM mem) sr sc r c.
+Proof.
+  intros HokS HokM Hr Hc Hsr H.
+  assert (Hlen : sr + r <= length (rows (abs hM mem))) by now rewrite rows_abs_length.
+  apply mat_ext; auto using abs_wf, wf_msub.
+  intros i j Hi Hj. rewrite nr_abs in Hi. rewrite nc_abs in Hj.
+  rewrite get_msub by assumption. rewrite !get_abs_rowval by lia.
+  destruct (Nat.ltb_spec i r); [|lia]. destruct (Nat.ltb_spec j c); [|lia]. cbn [andb].
+  rewrite H by lia. do 2 f_equal. lia.
+Qed.
+
+Theorem w_submatrix_fixed_ok hS hM sr sc er ec mem :
+  valid hS mem -> valid hM mem -> h_nrows hS = er - sr -> h_ncols hS = ec - sc ->
+  sr <= er -> er <= h_nrows hM -> ec <= h_ncols hM -> sc < ec -> wdisjoint hS hM ->
+  exists m', w_submatrix_fixed hS hM sr sc er ec mem = Ok m' /\ length m' = length mem /\ mem_ok m' /\
+    abs hS m' = msub (abs hM mem) sr sc (er - sr) (ec - sc) /\ outside hS mem m'.
+Proof.
+  intros HvS HvM Hrows Hcols Hsr Her Hec Hsc Dj.
+  pose proof (valid_hdr_ok _ _ HvS) as HokS. pose proof (valid_hdr_ok _ _ HvM) as HokM.
+  pose proof (valid_mem_ok _ _ HvS) as Hm.
+  assert (Stab : forall m i, length m = length mem -> mem_ok m -> outside hS mem m -> i < h_nrows hS ->
+            rowval hM m (sr + i) = rowval hM mem (sr + i)).
+  { intros m i Lm Om Outm Hi. apply (outside_rowval hS hM mem m); auto. lia. }
+  unfold w_submatrix_fixed, w_submatrix. rewrite <- Hrows, <- Hcols, !Nat.ltb_irrefl. cbn [orb].
+  destruct (Nat.eqb_spec (sc mod 64) 0) as [Hal|Hal].
+  - (* aligned *)
+    set (q := h_ncols hS / 64).
+    assert (L1 : exists m1,
+      (if negb (q =? 0) then
+         forM (seq 0 (h_nrows hS)) (fun i m => forM (seq 0 q) (fun k m =>
+           x <- rd m (row_addr hM (sr + i) + sc / 64 + k) ;; wr m (row_addr hS i + k) x) m) mem
+       else Ok mem) = Ok m1 /\ length m1 = length mem /\ mem_ok m1 /\ outside hS mem m1 /\
+      forall k, k < h_nrows hS ->
+        rowval hS m1 k = merge (64 * q) (N.shiftr (rowval hM mem (sr + k)) (N.of_nat sc)) (rowval hS mem k)).
+    { destruct (Nat.eqb_spec q 0) as [E0|E0]; cbn [negb].
+      - exists mem. split; [reflexivity|]. split; [reflexivity|]. split; [assumption|]. split; [apply outside_refl|].
+        intros k Hk. apply merge_ext. intros j. rewrite E0. destruct (Nat.ltb_spec j (64 * 0)); [lia|reflexivity].
+      - destruct (rows_loop hS 0 0 (h_nrows hS) 0 (64 * q)
+           (fun k => merge (64 * q) (N.shiftr (rowval hM mem (sr + k)) (N.of_nat sc)) (rowval hS mem k))
+           (fun i m => forM (seq 0 q) (fun k m =>
+              x <- rd m (row_addr hM (sr + i) + sc / 64 + k) ;; wr m (row_addr hS i + k) x) m) mem HokS
+           ltac:(lia) ltac:(subst q; lia) Hm) as (m1 & E1 & Lm1 & O1 & Out1 & Done1 & _).
+        + intros k m Hk Lm Om Outm Restm. cbn [Nat.add] in *.
+          destruct (sub_full_step hS hM sr sc er ec HokS HokM Hrows Hcols Her Hec Hsc Dj k m)
+            as (m' & E & L' & O' & T & B); try (eapply valid_same_length; eassumption); try lia.
+          exists m'. split; [exact E|]. split; [assumption|]. split; [exact T|].
+          rewrite B. rewrite Stab by (auto; lia). rewrite Restm by lia. reflexivity.
+        + exists m1. split; [exact E1|]. do 3 (split; [assumption|]). intros k Hk. apply (Done1 k). lia. }
+    destruct L1 as (m1 & E1 & Lm1 & O1 & Out1 & R1). fold q. rewrite E1. cbn [bind].
+    destruct (Nat.eqb_spec (h_ncols hS mod 64) 0) as [Et|Et]; cbn [negb].
+    + exists m1. split; [reflexivity|]. do 2 (split; [assumption|]). split; [|assumption].
+      apply (abs_msub_intro hS hM sr sc); auto; try lia. intros i j Hi Hj.
+      rewrite R1 by lia. rewrite testbit_merge. destruct (Nat.ltb_spec j (64 * q)); [|subst q; lia].
+      apply X_bits.
+    + destruct (rows_loop hS 0 0 (h_nrows hS) (64 * q) (h_ncols hS)
+         (fun k => N.land (N.shiftr (rowval hM mem (sr + k)) (N.of_nat sc)) (N.ones (N.of_nat (h_ncols hS))))
+         (fun i m =>
+            x <- rd m (row_addr hM (sr + i) + sc / 64 + q) ;;
+            s <- rd m (row_addr hS i + q) ;;
+            wr m (row_addr hS i + q)
+               (N.lor (N.land s (wnot (left_bitmask (h_ncols hS mod 64))))
+                      (N.land x (left_bitmask (h_ncols hS mod 64))))) m1 HokS
+         ltac:(lia) ltac:(lia) O1) as (m2 & E2 & Lm2 & O2 & Out2 & Done2 & _).
+      * intros k m Hk Lm Om Outm Restm. cbn [Nat.add] in *.
+        assert (Outmm : outside hS mem m) by (eapply outside_trans; eassumption).
+        destruct (sub_tail_step hS hM sr sc er ec HokS HokM Hrows Hcols Her Hec Hsc k m)
+          as (m' & E & L' & O' & T & B); try (eapply valid_same_length; try eassumption; congruence); try lia.
+        exists m'. split; [exact E|]. split; [assumption|]. split; [exact T|].
+        apply bits_ext_nat. intros j. rewrite B, N.land_spec, testbit_ones_nat.
+        rewrite Stab by (auto; lia). rewrite Restm by lia. rewrite R1 by lia. rewrite testbit_merge. fold q.
+        destruct (Nat.leb_spec (64 * q) j), (Nat.ltb_spec j (h_ncols hS)); cbn [andb].
+        -- now rewrite andb_true_r.
+        -- destruct (Nat.ltb_spec j (64 * q)); [lia|]. rewrite rowval_bounded by lia. now rewrite andb_false_r.
+        -- destruct (Nat.ltb_spec j (64 * q)); [|lia]. now rewrite andb_true_r.
+        -- subst q. lia.
+      * exists m2. split; [exact E2|]. split; [congruence|]. split; [assumption|]. split.
+        -- apply (abs_msub_intro hS hM sr sc); auto; try lia. intros i j Hi Hj.
+           pose proof (Done2 i ltac:(lia)) as Dn; cbn [Nat.add] in Dn; rewrite Dn. rewrite N.land_spec, testbit_ones_nat.
+           destruct (Nat.ltb_spec j (h_ncols hS)); [|lia]. rewrite andb_true_r. apply X_bits.
+        -- eapply outside_trans; eassumption.
+  - (* unaligned *)
+    destruct (rows_loop hS 0 0 (h_nrows hS) 0 (h_ncols hS)
+       (fun k => N.land (N.shiftr (rowval hM mem (sr + k)) (N.of_nat sc)) (N.ones (N.of_nat (h_ncols hS))))
+       (fun i m =>
+          m1 <- forM (seq 0 ((h_ncols hS - 1) / 64)) (fun jj m =>
+                  v <- w_read_bits hM (sr + i) (sc + 64 * jj) 64 m ;; wr m (row_addr hS i + jj) v) m ;;
+          w <- rd m1 (row_addr hS i + 64 * ((h_ncols hS - 1) / 64) / 64) ;;
+          m2 <- wr m1 (row_addr hS i + 64 * ((h_ncols hS - 1) / 64) / 64) (N.land w (wnot (h_hmask hS))) ;;
+          w' <- rd m2 (row_addr hS i + 64 * ((h_ncols hS - 1) / 64) / 64) ;;
+          v <- w_read_bits hM (sr + i) (sc + 64 * ((h_ncols hS - 1) / 64))
+                 (h_ncols hS - 64 * ((h_ncols hS - 1) / 64)) m2 ;;
+          wr m2 (row_addr hS i + 64 * ((h_ncols hS - 1) / 64) / 64) (N.lor w' (N.land v (h_hmask hS)))) mem HokS
+       ltac:(lia) ltac:(lia) Hm) as (m1 & E1 & Lm1 & O1 & Out1 & Done1 & _).
+    + intros k m Hk Lm Om Outm Restm. cbn [Nat.add] in *.
+      destruct (sub_unaligned_step hS hM sr sc er ec HokS Hrows Hcols Her Hec Hsc Dj k m)
+        as (m' & E & L' & O' & T & B); try (eapply valid_same_length; eassumption); try lia.
+      exists m'. split; [exact E|]. split; [assumption|]. split; [exact T|].
+      rewrite B. rewrite Stab by (auto; lia). reflexivity.
+    + exists m1. split; [exact E1|]. do 2 (split; [assumption|]). split; [|assumption].
+      apply (abs_msub_intro hS hM sr sc); auto; try lia. intros i j Hi Hj.
+      pose proof (Done1 i ltac:(lia)) as Dn; cbn [Nat.add] in Dn; rewrite Dn. rewrite N.land_spec, testbit_ones_nat.
+      destruct (Nat.ltb_spec j (h_ncols hS)); [|lia]. rewrite andb_true_r. apply X_bits.
+Qed.
